@@ -1,4 +1,5 @@
 import math
+import os
 import random
 import sys
 
@@ -10,6 +11,10 @@ from mofun.atoms import find_unchanged_atom_pairs
 from mofun.helpers import atoms_of_type, atoms_by_type_dict, position_index_farthest_from_axis, \
                           quaternion_from_two_vectors, quaternion_from_two_vectors_around_axis, \
                           remove_duplicates, suppress_warnings, group_duplicates
+
+# verification hook: a callable installed by the /verif harness; only consulted when MOFUN_VERIF=1
+_verif_sink = None
+_verif_on = os.environ.get("MOFUN_VERIF") == "1"
 
 def uc_neighbor_offsets(uc_vectors):
     multipliers = np.array(np.meshgrid([-1, 0, 1],[-1, 0, 1],[-1, 0, 1])).T.reshape(-1, 1, 3)
@@ -232,6 +237,10 @@ def find_pattern_in_structure(structure, pattern, axisp1_idx=None, axisp2_idx=No
             if np.allclose(atom_positions, chk_pattern.positions, atol=atol):
                 good_indices.append(i)
 
+        if _verif_on and _verif_sink is not None:
+            _verif_sink(dict(kind="group", tuples=[[int(near_indices[m]) for m in t] for t in match_tuples],
+                quats=[q.as_quat() for q in quats], good=list(good_indices)))
+
         if len(good_indices) > 1:
             # Likely it is because of symmetry if we found more than one good match. Randomly choose one.
             match_chosen = random.choice(good_indices)
@@ -246,6 +255,10 @@ def find_pattern_in_structure(structure, pattern, axisp1_idx=None, axisp2_idx=No
             print("""WARNING: Search pattern was matched, but there is no possible way to rotate the search patttern to meet the
                 match pattern. This is likely due to finding a match of the opposite chirality.
                 """, file=sys.stderr)
+
+    if _verif_on and _verif_sink is not None:
+        _verif_sink(dict(kind="find", axis=(axisp1_idx, axisp2_idx, opoint_idx), near_indices=[int(i) for i in near_indices],
+            chosen=[[int(near_indices[m]) for m in t] for t in good_match_index_tuples]))
 
     match_index_tuples_in_uc = [tuple([near_indices[m] % len(structure) for m in match]) for match in good_match_index_tuples]
     if return_positions_and_quats:
